@@ -14,7 +14,7 @@
 from amaranth import *
 from ..harness import Harness
 from ..engine import Query
-from ..lib.host import SlottedHost, TxSpy, KIND_NONE, KIND_SETUP, KIND_IN, KIND_OUT, KIND_SOF, KIND_HSK
+from ..lib.host import SlottedHost, TxSpy, slot_cubes, KIND_NONE, KIND_SETUP, KIND_IN, KIND_OUT, KIND_SOF, KIND_HSK
 from ..lib.device import make_device, tie_device
 
 PROP = "C20"
@@ -221,23 +221,37 @@ def queries(tier):
     qs = [Query("mux_comb", lambda: MuxHarness(3), 1, hints={"second_selected": {"data1": 0xA5}},
                 desc="UTMIInterfaceMultiplexer with 3 inputs, all values, at most one valid"),
           Query("cosim_mux", lambda: MuxHarness(3), 0, kind="cosim", cosim_cycles=100)]
-    n = 3
-    K = 32 * n + 2
-    f = lambda: TxHarness(n, free_ready=True)
+    f3 = lambda: TxHarness(3, free_ready=True)
+    f3r = lambda: TxHarness(3, free_ready=False)
+    f4r = lambda: TxHarness(4, free_ready=False)
     hints = {
-        "ep1_data": {"s0_kind": KIND_IN, "s0_ep": 1, "s0_addr": 0},
-        "ep3_data": {"s0_kind": KIND_IN, "s0_ep": 3, "s0_addr": 0},
-        "ep2_ack": {"s0_kind": KIND_OUT, "s0_ep": 2, "s0_addr": 0, "s0_flag": 0, "s0_dpid": 0},
-        "ep0_data": {"s0_kind": KIND_SETUP, "s0_ep": 0, "s0_addr": 0, "s0_data": GET_DESC_DEV, "s0_flag": 0,
-                     "s1_kind": KIND_IN, "s1_ep": 0, "s1_addr": 0},
-        "stalled_byte": {"s0_kind": KIND_IN, "s0_ep": 1, "s0_addr": 0},
-        "nak": {"s0_kind": KIND_OUT, "s0_ep": 2, "s0_addr": 0},
+        "ep1_data": {"s0_kind": KIND_IN, "s0_ep": 1},
+        "ep3_data": {"s0_kind": KIND_IN, "s0_ep": 3},
+        "ep2_ack": {"s0_kind": KIND_OUT, "s0_ep": 2, "s0_dpid": 0},
+        "ep0_data": {"s0_kind": KIND_SETUP, "s0_ep": 0, "s0_data": GET_DESC_DEV, "s1_kind": KIND_IN, "s1_ep": 0},
+        "stalled_byte": {"s0_kind": KIND_IN, "s0_ep": 1},
+        "nak": {"s0_kind": KIND_OUT, "s0_ep": 2},
     }
-    qs.append(Query(f"bmc_{n}slots_freeready", f, K, timeout=2400, hints=hints,
-                    covers=["ep1_data", "ep3_data", "ep2_ack", "ep0_data", "stalled_byte"],
-                    desc=f"{n} symbolic transactions against control + bulk IN/OUT + status endpoints, tx_ready free"))
+    for hd in hints.values():
+        for i in range(4):
+            hd.setdefault(f"s{i}_kind", KIND_NONE)
+            hd.setdefault(f"s{i}_flag", 0)
+            hd.setdefault(f"s{i}_addr", 0)
+            hd.setdefault(f"s{i}_ep", 0)
+            hd.setdefault(f"s{i}_olen", 0)
+    qs.append(Query("covers_3slots", f3, 32 * 3 + 2, asserts=[], hints=hints, timeout=900, split=False,
+                    covers=["ep1_data", "ep3_data", "ep2_ack", "ep0_data", "stalled_byte"], desc="witnesses"))
+    # one solver process per cube of per-slot (kind, flag) choices; endpoints 0..3, addresses, data, OUT length symbolic
+    if tier == "quick":
+        cubes = list(slot_cubes(3, "SIO", first="SIO"))
+    else:
+        cubes = list(slot_cubes(3, "SsIiOoN"))
+    for name, layer in cubes:
+        qs.append(Query(f"bmc_3slots_{name}", f3, 32 * 3 + 2, layer=layer, covers=[], timeout=900, split=False,
+                        desc=f"3 transactions {name} against control + bulk IN/OUT + status endpoints, tx_ready free"))
     if tier == "thorough":
-        qs.append(Query("bmc_4slots_ready1", lambda: TxHarness(4, free_ready=False), 32 * 4 + 2, timeout=3000, covers=[],
-                        desc="4 symbolic transactions, tx_ready = 1"))
-    qs.append(Query("cosim", lambda: TxHarness(3, True), 0, kind="cosim", cosim_cycles=100 if tier == "quick" else 400))
+        for name, layer in slot_cubes(4, "SIO", first="S"):
+            qs.append(Query(f"bmc_4slots_{name}", f4r, 32 * 4 + 2, layer=layer, covers=[], timeout=900, split=False,
+                            desc=f"4 transactions {name}, tx_ready = 1"))
+    qs.append(Query("cosim", f3, 0, kind="cosim", cosim_cycles=100 if tier == "quick" else 400))
     return qs
